@@ -55,6 +55,8 @@ type FuncContract struct {
 	Pure      bool
 	NoOverflow bool
 	NilRecv   bool
+	Callers   []string // the only functions allowed to call this one (non-test module code)
+	HasCallers bool
 	Props     []string
 	Havoc     []string // extra heap keys (prefixes) to havoc at calls
 	Verify    bool     // has clauses that need the body to be verified
@@ -94,7 +96,15 @@ type LemmaDef struct {
 	Props []string
 }
 
+// PoolContract types a sync.Pool field: what Get yields and the invariant of pooled objects.
+type PoolContract struct {
+	Key    string // "frame.Builder.frameV1Pool"
+	Yields string
+	Invs   []Clause
+}
+
 type Contracts struct {
+	Pools  map[string]*PoolContract
 	Funcs  map[string]*FuncContract
 	Types  map[string]*TypeContract
 	Preds  map[string]*PredDef
@@ -104,7 +114,7 @@ type Contracts struct {
 }
 
 func newContracts() *Contracts {
-	return &Contracts{Funcs: map[string]*FuncContract{}, Types: map[string]*TypeContract{}, Preds: map[string]*PredDef{}}
+	return &Contracts{Funcs: map[string]*FuncContract{}, Types: map[string]*TypeContract{}, Preds: map[string]*PredDef{}, Pools: map[string]*PoolContract{}}
 }
 
 // loadContracts reads every zz_verif_contracts.go under the repository.
@@ -146,7 +156,7 @@ func loadContracts(repo string) (*Contracts, error) {
 var clauseKeywords = map[string]bool{
 	"func": true, "type": true, "pred": true, "fun": true, "lemma": true,
 	"requires": true, "ensures": true, "modifies": true, "invariant": true, "decreases": true,
-	"update": true, "option": true, "ghost": true, "guarded": true, "props": true, "callsite": true, "havoc": true,
+	"update": true, "option": true, "ghost": true, "guarded": true, "props": true, "callsite": true, "havoc": true, "callers": true, "pool": true, "yields": true,
 }
 
 func (C *Contracts) errorf(format string, a ...any) {
@@ -182,6 +192,7 @@ func (C *Contracts) parseFile(pkg, file, src string) {
 	}
 	var curF *FuncContract
 	var curT *TypeContract
+	var curP *PoolContract
 	qual := func(name string) string {
 		if strings.Count(name, ".") >= 1 {
 			head := name[:strings.Index(name, ".")]
@@ -198,7 +209,22 @@ func (C *Contracts) parseFile(pkg, file, src string) {
 		kw := fs[0]
 		rest := strings.TrimSpace(strings.TrimPrefix(ln.text, kw))
 		switch kw {
+		case "pool":
+			key := qual(fs[1])
+			curP = C.Pools[key]
+			if curP == nil {
+				curP = &PoolContract{Key: key}
+				C.Pools[key] = curP
+			}
+			curF, curT = nil, nil
+		case "yields":
+			if curP == nil {
+				C.errorf("%s: yields outside pool", where)
+				continue
+			}
+			curP.Yields = rest
 		case "func":
+			curP = nil
 			key := qual(fs[1])
 			curF = C.Funcs[key]
 			if curF == nil {
@@ -207,6 +233,7 @@ func (C *Contracts) parseFile(pkg, file, src string) {
 			}
 			curT = nil
 		case "type":
+			curP = nil
 			key := qual(fs[1])
 			curT = C.Types[key]
 			if curT == nil {
@@ -318,6 +345,15 @@ func (C *Contracts) parseFile(pkg, file, src string) {
 					C.errorf("%s: unknown option %q", where, o)
 				}
 			}
+		case "callers":
+			if curF != nil {
+				curF.HasCallers = true
+				for _, p := range strings.Split(rest, ",") {
+					if p = strings.TrimSpace(p); p != "" && p != "none" {
+						curF.Callers = append(curF.Callers, qual(p))
+					}
+				}
+			}
 		case "havoc":
 			if curF != nil {
 				for _, p := range strings.Split(rest, ",") {
@@ -395,7 +431,7 @@ func (C *Contracts) parseFile(pkg, file, src string) {
 				body = strings.TrimSpace(strings.TrimPrefix(body, callee))
 			}
 			if kw == "invariant" || kw == "decreases" {
-				if curF != nil {
+				if curF != nil && curP == nil {
 					// loop ordinal first
 					f2 := strings.Fields(body)
 					n, err := strconv.Atoi(strings.Trim(f2[0], ":"))
@@ -420,6 +456,8 @@ func (C *Contracts) parseFile(pkg, file, src string) {
 			}
 			cl.E, cl.Src = e, body
 			switch {
+			case curP != nil && kw == "invariant":
+				curP.Invs = append(curP.Invs, cl)
 			case curT != nil && kw == "invariant":
 				curT.Invs = append(curT.Invs, cl)
 			case curF == nil:
